@@ -10,7 +10,7 @@ func nlProps(op M) []string {
 		return []string{"C09", "C08"}
 	case "intersect":
 		return []string{"C10", "C08"}
-	case "removeNodes", "relateNode", "relateList", "cleanEdges":
+	case "removeNodes", "relateNode", "relateList", "cleanEdges", "addBack":
 		return []string{"C08"}
 	case "nodeGraph", "nodeSiblings", "nodeDescendants":
 		return []string{"C15", "C08"}
@@ -69,6 +69,46 @@ func nlGen(g *G, tier string) []M {
 				op["b"] = Normalize(op["a"])
 			}
 		}
+	}
+	// a tenth of the extractions also as "extract, then add the fragment back to the list"
+	var back []M
+	for _, op := range ops {
+		how := map[string]float64{"nodeGraph": 0, "nodeSiblings": 1, "nodeDescendants": 2, "purlType": 3}
+		if h, ok := how[asStr(op["op"])]; ok && g2.Chance(0.1) {
+			nb := M{"op": "addBack", "a": Normalize(op["a"]), "how": h, "id": op["id"], "t": op["t"]}
+			if g2.Chance(0.15) {
+				nb["how"] = 4.0
+			}
+			back = append(back, nb)
+		}
+	}
+	ops = append(ops, back...)
+	// matching: a list node that has the probe's package URL, agrees with it on one hash algorithm
+	// and differs on another is no hash match and still a package-URL match; next to a second,
+	// hash-less carrier of that URL the answer is the ambiguity error
+	for _, op := range ops {
+		if asStr(op["op"]) != "match" || !g2.Chance(0.08) {
+			continue
+		}
+		purl := g2.Pick([]string{"pkg:npm/left-pad@1.3.0", "pkg:golang/example.com/m@v1"})
+		nd := func(id string, typ float64, hashes []any, withPurl bool) M {
+			a := M{}
+			if hashes != nil {
+				a["Hashes"] = hashes
+			}
+			if withPurl {
+				a["Identifiers"] = []any{[]any{1.0, purl}}
+			}
+			return M{"id": id, "type": typ, "a": a}
+		}
+		nodes := []any{nd("conflicting", 0, []any{[]any{2.0, "aaaa"}, []any{3.0, "good"}}, true), nd("other", 0, []any{[]any{2.0, "bbbb"}}, false)}
+		if g2.Chance(0.5) {
+			nodes = append(nodes, nd("bare", 0, nil, true))
+		}
+		g2.R.Shuffle(len(nodes), func(i, j int) { nodes[i], nodes[j] = nodes[j], nodes[i] })
+		op["a"] = M{"nodes": nodes, "edges": []any{}, "roots": []any{}}
+		op["n"] = nd("probe", 0, []any{[]any{2.0, "aaaa"}, []any{3.0, "bad"}}, true)
+		delete(op, "member")
 	}
 	// identifiers that contain the character edge targets are joined with when edges are compared:
 	// an edge to "lib+ssl" and an edge to "lib" and "ssl" are different edges, in merges (one in
@@ -652,4 +692,5 @@ var NLStream = &Stream{
 	Nontrivial: nlNontrivial,
 	OpProps:    nlProps,
 	Reps:       3,
+	NoModel:    func(op M) bool { return asStr(op["op"]) == "addBack" },
 }
